@@ -79,6 +79,7 @@ type Config struct {
 	PoolAnyPct   int
 	PoolDropPct  int
 	FPYieldPct   int // percent of FP sites that are yield points in this run (0: none)
+	ClockVaryPct int // percent of clock reads that see a non-canonical step (stall, fine step, jump)
 
 	// failpoint panic: the PanicAtHit-th FP hit (1-based, counted among
 	// panic-capable sites while armed) panics. Armed per operation by the harness.
@@ -105,6 +106,8 @@ type Stats struct {
 	PoolCross    int64 // item handed to a task other than the one that put it
 	PoolReuse    int64 // item reused at all
 	Spawned      int64 // tasks started by the library itself (go statements)
+	ClockReads   int64 // reads of the simulated clock by the library
+	ClockJumps   int64 // … that saw a non-canonical step
 	ChanOps      int64
 	FPHits       int64
 	FPPanics     int64
@@ -457,6 +460,7 @@ func Begin(cfg Config) {
 	resetPools()
 	resetAddrs()
 	resetChans()
+	resetClock()
 }
 
 // Run executes fns as simulated tasks until all have finished and returns.
